@@ -4,6 +4,7 @@ package cluster
 import (
 	"errors"
 	"fmt"
+	"io"
 	"sort"
 	"strings"
 	"sync/atomic"
@@ -568,6 +569,11 @@ func ReadVersionVector(r *messages.Reader) (VersionVector, error) {
 	}
 
 	// 创建版本向量
+	// 每个条目至少占 13 字节（地址长度前缀 + 非空地址 + 计数器）：条目数超过剩余数据可容纳的数量即为损坏数据，分配前拒绝
+	if int(n) > r.RemainingSize()/13 {
+		return VersionVector{}, fmt.Errorf("读取条目数失败: %w", io.ErrUnexpectedEOF)
+	}
+
 	out := NewVersionVectorWithCapacity(int(n))
 
 	// 读取每个条目
